@@ -110,6 +110,9 @@ func (d *Datastore) replaceIntent(ctx context.Context, transaction *types.Transa
 
 	// store the actual / old running in the transaction
 	runningUpds, err := tc.GetTreeSchemaCacheClient().ReadRunningFull(ctx)
+	if err != nil {
+		return nil, err
+	}
 	transaction.GetOldRunning().AddUpdates(runningUpds)
 
 	// creat a InsertFlags struct with the New flag set.
